@@ -63,7 +63,15 @@ def regenerate_guards(pid):
         gold = gt.read_text() if gt.exists() else ""
         if gtext != gold: gt.write_text(gtext)
         info["pickled_state"] = {"module": "LK.Gen.GuardsC15", "obligations": "LK/Proofs/GuardsC15.lean", "function": "data/items.py:ItemList.__getstate__ / __setstate__", "changed_since_last_run": gtext != gold}
-        return "ok", "regenerated" if (text != old or gtext != gold) else "unchanged", info
+        # …and the native Parquet layout of item-list collections (translate/py2lean_coll.py)
+        import py2lean_coll
+        ct = LEAN_DIR / "LK" / "Generated" / "CollC15.lean"
+        try: ctext = py2lean_coll.translate(os.path.dirname(lenskit.__file__))
+        except py2lean_coll.Unsupported as e: return "untranslatable", f"collection layout: {e}", info
+        cold = ct.read_text() if ct.exists() else ""
+        if ctext != cold: ct.write_text(ctext)
+        info["collection_layout"] = {"module": "LK.Gen.CollC15", "obligations": "LK/Proofs/CollC15.lean", "function": "data/collection/_base.py:ItemListCollection.record_batches / save_parquet / load_parquet (native layout)", "changed_since_last_run": ctext != cold}
+        return "ok", "regenerated" if (text != old or gtext != gold or ctext != cold) else "unchanged", info
     if pid == "C20":
         import py2lean_neg
         info = {"module": "LK.Gen.NegC20", "obligations": "LK/Proofs/NegC20.lean", "sites": ["data/relationships.py:MatrixRelationshipSet.sample_negatives / _check_negatives / _check_negatives_and_resample → sampleT"]}
@@ -284,7 +292,7 @@ def main():
         if status in ("untranslatable", "obligation-broken"):
             sys.exit(search_chunking(a.pid, f"{status}: {msg}"))
         if status == "build-error":
-            if ginfo is not None and any(f"{k}{a.pid}" in msg for k in ("Guards", "Wiring", "Scatter", "Np", "Imp", "Holdout", "Arrow", "Cand", "SaveTrace", "BatchTrace", "Neg", "Als", "Agg", "Rank", "RowPtrs", "Sim", "Split")):
+            if ginfo is not None and any(f"{k}{a.pid}" in msg for k in ("Guards", "Wiring", "Scatter", "Np", "Imp", "Holdout", "Arrow", "Cand", "SaveTrace", "BatchTrace", "Neg", "Als", "Agg", "Rank", "RowPtrs", "Sim", "Split", "Coll")):
                 sys.exit(obligation_broken(a.pid, "obligation-broken: " + msg.replace("\n", " | ")[:900], mod, a.tier, seed, a.replay, ginfo))
             print(f"machinery error: lake build failed\n{msg}", file=sys.stderr); sys.exit(2)
     else:
@@ -292,7 +300,7 @@ def main():
         r = subprocess.run(["lake", "build", f"LK.Props.{a.pid}", "lkdriver"], cwd=LEAN_DIR, capture_output=True, text=True, timeout=1800)
         if r.returncode != 0:
             bad = [l for l in (r.stdout + r.stderr).splitlines() if "error" in l][:8]
-            if ginfo is not None and any(any(f"{k}{a.pid}" in l for k in ("Guards", "Wiring", "Scatter", "Np", "Imp", "Holdout", "Arrow", "Cand", "SaveTrace", "BatchTrace", "Neg", "Als", "Agg", "Rank", "RowPtrs", "Sim", "Split")) for l in bad):
+            if ginfo is not None and any(any(f"{k}{a.pid}" in l for k in ("Guards", "Wiring", "Scatter", "Np", "Imp", "Holdout", "Arrow", "Cand", "SaveTrace", "BatchTrace", "Neg", "Als", "Agg", "Rank", "RowPtrs", "Sim", "Split", "Coll")) for l in bad):
                 sys.exit(obligation_broken(a.pid, "obligation-broken: " + " | ".join(bad)[:900], mod, a.tier, seed, a.replay, ginfo))
             print("machinery error: lake build failed\n" + "\n".join(bad[:6]), file=sys.stderr); sys.exit(2)
     try:
